@@ -205,10 +205,20 @@ def run_served(cls_name, size, seq, cap):
     replies = []
     trace = []
     with cap.active():
-        s = Session(loop, pool, 80)
+        # another client of the same server, connected earlier, keeps sending lines the parser rejects/explains
+        from .memstream import make_server
+
+        srv = make_server(pool)
+        noise = Session(loop, pool, 80, name="noise", srv=srv)
+        loop.run_idle()
+        noise.take()
+        s = Session(loop, pool, 80, srv=srv)
         loop.run_idle()
         s.take()
-        for f in seq:
+        for k, f in enumerate(seq):
+            noise.send(("pool-size abc", "nope", "cancel -h")[k % 3])
+            loop.run_idle()
+            noise.take()
             s.send(f.line)
             settle(loop, rec, lambda: bool(s.writer.writes), f.waits)
             out = [b.decode() for b in s.take()]
